@@ -213,18 +213,18 @@ def generate(rng, tier):
     # 3. bounded-preemption exhaustive exploration by the driver
     for w in [W_TWO3, W_SHARE, W_RESET, with_fail_at(W_TWO4, 1), with_fail_at(W_ONE3, 0), with_fail_at(W_THREE, 3)] + \
             ([] if quick else [W_THREE]):
-        heavy.append(mk(w, dict(kind="explore", gran="atomic", budget=1, max_runs=700 if quick else 10000), "explore-atomic"))
+        heavy.append(mk(w, dict(kind="explore", gran="atomic", budget=1, max_runs=700 if quick else 12000), "explore-atomic"))
     for w, cap in [(W_TINY2, 1500), (W_SHARE, 700), (with_fail_at(W_ONE3, 1), 700)] + \
             ([] if quick else [(W_TWO3, 0), (W_TWO4, 0), (W_THREE, 0), (W_RESET, 0)]):
-        heavy.append(mk(w, dict(kind="explore", gran="line", budget=1, max_runs=cap if quick else 10000), "explore-line"))
+        heavy.append(mk(w, dict(kind="explore", gran="line", budget=1, max_runs=cap if quick else 12000), "explore-line"))
     if not quick:
         for w in [W_TINY2, W_SHARE, W_TWO3]:
-            heavy.append(mk(w, dict(kind="explore", gran="atomic", budget=2, max_runs=12000), "explore-atomic"))
-        heavy.append(mk(W_TINY2, dict(kind="explore", gran="line", budget=2, max_runs=12000), "explore-line"))
+            heavy.append(mk(w, dict(kind="explore", gran="atomic", budget=2, max_runs=15000), "explore-atomic"))
+        heavy.append(mk(W_TINY2, dict(kind="explore", gran="line", budget=2, max_runs=15000), "explore-line"))
         for w in [W_TINY2, W_SHARE, W_ONE3]:
-            heavy.append(mk(w, dict(kind="explore", gran="opcode", budget=1, max_runs=10000), "explore-opcode"))
+            heavy.append(mk(w, dict(kind="explore", gran="opcode", budget=1, max_runs=12000), "explore-opcode"))
     # 4. seeded random walks (random preemption at every yield point) on random workloads
-    for j in range(16 if quick else 160):
+    for j in range(16 if quick else 240):
         w = rand_work(rng, rng.randrange(1, 4), 5, rng.randrange(1, 4))
         gran = "line" if j % 2 else "atomic"
         heavy.append(mk(w, dict(kind="random", gran=gran, seed=rng.randrange(10**6), runs=40 if quick else 150,
@@ -234,7 +234,16 @@ def generate(rng, tier):
         for j in range(24):
             w = rand_work(rng, 1 + j % 3, 6, 1 + j % 3, pfail=0.1, after_save=0.0)
             heavy.append(mk(w, dict(kind="threads", runs=3, delay=[0.0, 0.003, 0.05][j % 3], switch=1e-5), "real-threads"))
-    # spread the heavy cases evenly (the driver is sharded over contiguous chunks)
+    # spread the heavy cases evenly (the driver is sharded over contiguous chunks), the explorations - heaviest - first
+    expl = [c for c in heavy if c["sched"]["kind"] == "explore"]
+    expl.sort(key=lambda c: -c["sched"]["max_runs"] * {"atomic": 1, "line": 2, "opcode": 2}[c["sched"]["gran"]])
+    rest = [c for c in heavy if c["sched"]["kind"] != "explore"]
+    heavy, gap = [], max(1, len(rest) // (len(expl) + 1))
+    for i, c in enumerate(rest):
+        if i % gap == 0 and expl:
+            heavy.append(expl.pop(0))
+        heavy.append(c)
+    heavy += expl
     cases = [dict(nrec=0, work=[], sched=dict(kind="gate"), label="gate")]
     step = max(1, len(light) // (len(heavy) + 1))
     hi = 0
